@@ -17,4 +17,7 @@ def run(ctx):
     else:
         ctx.pipe([h, "transfer", "400", "33", "64"], "transfer", label="fmg-interpolation")
         ctx.pipe([hs, "fmg", "600"], "trace", label="fmg-startup")
+    # the start-up executed INSIDE the model (Concrete.startL over the code-level models, hierarchy built by Build.hier) against the real
+    # initializeSolution(): 2 and 3 levels, every FMG cycle type, 0..2 FMG iterations, plain and extrapolated (shares the stage with C10)
+    ctx.pipe([hs, "concrete", "9" if ctx.tier == "quick" else "60"], "concrete", label="fmg-startup-in-the-model")
     ctx.assumptions += ["'already has discretisation-level accuracy' is an accuracy statement (see C02) and is not proved"]
